@@ -211,7 +211,7 @@ func factsClient(p *pkg, o *out) {
 		"h_410", "h_CAP", "h_AUTHENTICATE", "h_903", "h_904", "h_908", "h_001", "h_433", "h_CTCP", "h_NICK",
 		"h_STNICK", "h_JOIN", "h_PART", "h_KICK", "h_QUIT", "h_MODE", "h_TOPIC", "h_311", "h_324", "h_332", "h_352", "h_353", "h_671",
 		"Me", "EnableStateTracking", "DisableStateTracking", "initialise", "addIntHandlers", "addSTHandlers", "delSTHandlers",
-		"ConnectContext", "internalConnect", "postConnect", "dialProxy", "send", "recv", "ping", "runLoop", "Close", "drainIn", "drainOut",
+		"ConnectContext", "internalConnect", "postConnect", "dialProxy", "send", "recv", "recvFor", "closeFor", "ping", "runLoop", "Close", "drainIn", "drainOut",
 		"dispatch", "Handle", "HandleBG", "HandleFunc", "handle", "LogPanic", "Connected"} {
 		o.shapeDef(p, "Conn", m)
 	}
